@@ -629,12 +629,83 @@ def run_unif(unit, ctx):
         check_unif_case(ctx, data)
 
 
+def wm_model_distinct(sim):
+    """Weigel-Mason F and ranks for ensembles whose pooled values are all distinct (integer arithmetic via
+    numpy ranks; used for large ensembles where the quadratic Fraction model is too slow)"""
+    n, m = len(sim), len(sim[0])
+    F = {}
+    ranks = [Fraction(1)] * n
+    for i1 in range(n):
+        for i2 in range(i1 + 1, n):
+            pooled = np.concatenate([np.asarray(sim[i1]), np.asarray(sim[i2])])
+            if len(np.unique(pooled)) != 2 * m:
+                raise RuntimeError("harness: pooled values not distinct")
+            order = np.argsort(pooled, kind="stable")
+            rk = np.empty(2 * m, dtype=np.int64)
+            rk[order] = np.arange(1, 2 * m + 1)
+            s = int(rk[:m].sum())
+            f = Fraction(2 * s - m * (m + 1), 2 * m * m)
+            F[(i1, i2)] = f
+            u = Fraction(0) if f < Fraction(1, 2) else (Fraction(1) if f > Fraction(1, 2) else Fraction(1, 2))
+            ranks[i1] += u
+            ranks[i2] += 1 - u
+    return F, ranks
+
+
+def bigm_ensembles(m, swap):
+    """two interleaved ensembles with Weigel-Mason F exactly 1/2 (m even), made different by one adjacent
+    swap at position `swap` (so |F - 1/2| = 1/m^2), and a third, clearly larger one"""
+    h = m // 2
+    a = [2 * i if i < h else 2 * i + 1 for i in range(m)]
+    b = [2 * i + 1 if i < h else 2 * i for i in range(m)]
+    if swap is not None:
+        a[swap], b[swap] = b[swap], a[swap]
+    c = [10 * m + 3 * i for i in range(m)]
+    return [[float(v) for v in a], [float(v) for v in b], [float(v) for v in c]]
+
+
+def check_bigm(ctx, m, swap):
+    sim = bigm_ensembles(m, swap)
+    case = {"kind": "bigm", "m": m, "swap": swap}
+    F, R = wm_model_distinct(sim)
+    try:
+        ierr, fmat, ranks = call_ensrank(sim)
+    except Exception as e:
+        ctx.case(True)
+        ctx.violation("ensrank:large-m:raised", case, "ensrank raised %r for %d members" % (e, m))
+        return
+    ctx.case(True, outcome=(tuple(ranks.tolist()), float(fmat[0, 1])))
+    ctx.count("ensrank.large_ensembles")
+    exp = [float(r) for r in R]
+    if ierr != 0 or not all(close(float(a_), b_) for a_, b_ in zip(ranks, exp)):
+        ctx.violation("ensrank:large-m:ranks", case,
+                      "m=%d members, F(0,1) = 1/2 %s 1/m^2 exactly: ranks %r, Weigel-Mason ranks %r (ierr %r, F returned %r)" % (
+                          m, "+-" if swap is not None else "+ 0 *", ranks.tolist(), exp, ierr, float(fmat[0, 1])),
+                      observed=ranks.tolist(), expected=exp)
+    for (i1, i2), f in F.items():
+        if not close(float(fmat[i1, i2]), float(f), 1e-9):
+            ctx.violation("ensrank:large-m:fmat", case, "F[%d,%d] = %r, model %r" % (i1, i2, float(fmat[i1, i2]), float(f)))
+    # discrimination score of observations ordered like the Weigel-Mason ranks
+    try:
+        obs = [float(r) for r in R]
+        D = call_dscore(obs, sim)
+        if len(set(R)) == len(R) and not close(D, 1.0):
+            ctx.violation("dscore:large-m:perfect-not-1", case, "observations ordered exactly like the forecasts (m=%d): D = %r, expected 1" % (m, D))
+    except Exception as e:
+        ctx.violation("dscore:large-m:raised", case, "dscore raised %r" % (e,))
+
+
 NEAR = [3e-9, 1e-12, 2.0 ** -52]     # distinct values closer than any sorting/tie tolerance a kernel might use
 
 
 def run_lattice(unit, ctx):
     seed = unit["seed"]
     first = True
+    if unit.get("bigm"):
+        for m in unit["bigm"]:
+            for swap in (None, 0, m // 2 - 1, m // 2, m - 1):
+                check_bigm(ctx, m, swap)
+        return
     if unit.get("near"):
         # samples holding two distinct, nearly equal values, in every order (n <= 4)
         for base in ([0.4], [0.25, 0.6], [0.1, 0.5, 0.9]):
@@ -804,6 +875,8 @@ def units(tier, seed):
     for n in (7, 50, 300):
         us.append({"kind": "lattice", "ns": [n], "deltas": [d, 0.5], "seed": seed})
     us.append({"kind": "lattice", "near": True, "ns": [], "deltas": [], "seed": seed})
+    # size class: ensembles of a thousand members and more (|F - 1/2| = 1/m^2 is still far above the 1e-8 decision tolerance)
+    us.append({"kind": "lattice", "bigm": [2, 10, 200, 1200] if quick else [2, 10, 200, 1200, 3000], "ns": [], "deltas": [], "seed": seed})
     us.append({"kind": "reject", "sizes": [1, 2, 3] if quick else [1, 2, 3, 4]})
     # ---- alpha
     L3 = [0.0, 1.0, 2.0]
@@ -849,6 +922,8 @@ def replay(case):
         finish_pit_groups(ctx, groups)
     elif k == "unif":
         check_unif_case(ctx, [float(v) for v in case["data"]])
+    elif k == "bigm":
+        check_bigm(ctx, case["m"], case["swap"])
     elif k == "reject":
         check_reject_case(ctx, [_unj(v) for v in case["data"]], case["cls"])
     elif k == "alpha":
